@@ -87,8 +87,8 @@ def audit(theorems, timeout=1800, imports=("OASProofs",)):
     out = p.stdout.decode(errors="replace")
     res = {t: None for t in theorems}
     # messages:  'X' depends on axioms: [a, b]   |   'X' does not depend on any axioms
-    for m in re.finditer(r"^'(.+?)' depends on axioms: \[([^\]]*)\]", out, flags=re.S | re.M):
+    for m in re.finditer(r"^'([^\n]+?)' depends on axioms: \[([^\]]*)\]", out, flags=re.M):
         res[m.group(1)] = set(a.strip() for a in m.group(2).replace("\n", " ").split(",") if a.strip())
-    for m in re.finditer(r"^'(.+?)' does not depend on any axioms", out, flags=re.M):
+    for m in re.finditer(r"^'([^\n]+?)' does not depend on any axioms", out, flags=re.M):
         res[m.group(1)] = set()
     return res, out
